@@ -365,6 +365,16 @@ def real_optimal(net, kind, factor, outer, cap, via="function"):
     elif via == "class-nosimplify":
         opt = pb.OptimalOptimizer(minimize=minimize, cost_cap=cap, search_outer=outer, simplify=False)
         ssa = opt.ssa_path(inputs, output, sd)
+    elif via == "class-percall":
+        # the options are given for this call only, to an optimizer constructed with *other* defaults
+        # (OptimalOptimizer.maybe_update_defaults: a per-call value overrides the object's)
+        other = "size" if not minimize.startswith("size") else "flops"
+        opt = pb.OptimalOptimizer(minimize=other, cost_cap=7, search_outer=not outer)
+        ssa = opt.ssa_path(inputs, output, sd, minimize=minimize, cost_cap=cap, search_outer=outer)
+    elif via == "class-percall-search":
+        other = "write" if not minimize.startswith("write") else "flops"
+        opt = pb.OptimalOptimizer(minimize=other, search_outer=not outer)
+        ssa = opt.search(inputs, output, sd, minimize=minimize, cost_cap=cap, search_outer=outer).get_ssa_path()
     elif via == "class-search":
         opt = pb.OptimalOptimizer(minimize=minimize, cost_cap=cap, search_outer=outer)
         ssa = opt.search(inputs, output, sd).get_ssa_path()
@@ -514,7 +524,7 @@ def check_net(ctx, drv, net, rng, spy_tables=False, light=False):
                 if ctx.time_left() < 5 or ctx.violations >= 1:
                     return
                 via = rng.choice(["function", "function", "class", "linear", "function-nosimplify",
-                                  "class-nosimplify", "class-search"])
+                                  "class-nosimplify", "class-search", "class-percall", "class-percall-search"])
                 case = {"net": netj, "obj": [kind, factor], "outer": outer, "cap": cap, "via": via}
                 ctx.case(case, nontrivial=(n >= 4 and worst > best))
                 ctx.count("obj:" + kind)
